@@ -391,7 +391,7 @@ func (k *kindCtx) sliceKind(v ssa.Value, depth int) dimKind {
 		} else if sc := x.Common().StaticCallee(); sc != nil {
 			if sc.Name() == "Clone" && fnPkgPath(sc) == pkgTensor && len(x.Common().Args) > 0 {
 				res = k.sliceKind(x.Common().Args[0], depth+1)
-			} else if rk, ok := k.retKind[sc.Name()]; ok {
+			} else if rk, ok := k.retKind[convRole(sc)]; ok {
 				res = rk
 			}
 		}
@@ -419,7 +419,7 @@ func (k *kindCtx) sliceKind(v ssa.Value, depth int) dimKind {
 	case *ssa.Parameter:
 		for i, p := range k.fn.Params {
 			if p == x {
-				if pk, ok := k.paramKind[k.fn.Name()]; ok {
+				if pk, ok := k.paramKind[convRole(k.fn)]; ok {
 					res = pk[i]
 				}
 			}
@@ -746,4 +746,51 @@ func kindMismatchWhy(sk dimKind, ik idxKind) string {
 	default:
 		return fmt.Sprintf("the pads list [x1_begin.., x1_end..] is indexed with a %s index: begin/end paddings of different axes are mixed", ik)
 	}
+}
+
+// convRole names a method of the Conv operator by what it is, not by what it is called (a rename must not
+// make the geometry rules lose their anchors): the signature of each helper is unique among Conv's methods.
+func convRole(f *ssa.Function) string {
+	if f == nil || f.Signature.Recv() == nil {
+		if f != nil {
+			return f.Name()
+		}
+		return ""
+	}
+	sig := f.Signature
+	isInts := func(t types.Type) bool {
+		sl, ok := t.Underlying().(*types.Slice)
+		return ok && isIntType(sl.Elem())
+	}
+	np, nr := sig.Params().Len(), sig.Results().Len()
+	switch {
+	case np == 1 && nr == 1 && isInts(sig.Params().At(0).Type()) && isInts(sig.Results().At(0).Type()):
+		return "getNewCoordsAfterDilation"
+	case np == 2 && nr == 1 && isTensorish(sig.Params().At(0).Type()) && isTensorish(sig.Params().At(1).Type()) && isInts(sig.Results().At(0).Type()):
+		return "getOutputShape"
+	case np == 1 && nr == 2 && isTensorish(sig.Params().At(0).Type()) && isTensorish(sig.Results().At(0).Type()) && isErrorType(sig.Results().At(1).Type()) && callsNewDenseAndIterator(f):
+		return "getDilatedKernel"
+	case np == 3 && nr == 2 && sig.Variadic() && isTensorish(sig.Params().At(0).Type()) && isIntType(sig.Params().At(1).Type()):
+		return "getSubImage"
+	}
+	return f.Name()
+}
+
+// callsNewDenseAndIterator: the dilation step builds a new dense kernel and walks the old one with an iterator
+// (padInput has the same signature but neither).
+func callsNewDenseAndIterator(f *ssa.Function) bool {
+	newDense, iter := false, false
+	for _, b := range f.Blocks {
+		for _, in := range b.Instrs {
+			if cl, ok := in.(*ssa.Call); ok {
+				if sc := cl.Common().StaticCallee(); sc != nil && sc.Name() == "NewDense" {
+					newDense = true
+				}
+				if nm, _ := tensorMethod(cl); nm == "Iterator" {
+					iter = true
+				}
+			}
+		}
+	}
+	return newDense && iter
 }
